@@ -113,6 +113,7 @@ type Pool struct {
 
 	items      []poolItem
 	registered bool
+	outside    sync.Mutex // guards items when no run is active (real goroutines may then share the pool)
 }
 
 type poolItem struct {
@@ -153,6 +154,10 @@ func shallowHash(x interface{}) (uint64, uintptr) {
 //go:norace
 func (p *Pool) Get() interface{} {
 	s := S
+	if s == nil {
+		p.outside.Lock()
+		defer p.outside.Unlock()
+	}
 	inTask := s != nil && s.cur != nil
 	if !p.registered {
 		p.registered = true
@@ -202,6 +207,10 @@ func (p *Pool) Put(x interface{}) {
 		return
 	}
 	s := S
+	if s == nil {
+		p.outside.Lock()
+		defer p.outside.Unlock()
+	}
 	inTask := s != nil && s.cur != nil
 	if !p.registered {
 		p.registered = true
